@@ -73,6 +73,15 @@ var c04Fixed = []string{
 	"G = 3, catch(G, error(E, _), w(E))", "catch(catch(G, nomatch, w(no)), error(E, _), w(outer(E)))", "catch(catch(1, error(E, _), w(inner(E))), _, w(outer))",
 	"findall(x, catch(G, _, w(c)), L), w(L)", "\\+ catch(1, _, fail)", "pc(_)", "pc(1)", "pc((m(X), w(X)))", "pc((w(a), 1))", "m(X), pc(X)",
 	"call(catch, G, error(E, _), w(c(E)))", "catch(pc(G), _, w(outer)), w(after)", "catch((m(X), pc(Y)), _, w(outer)), w(X)",
+	// evaluation errors of the arithmetic COMPARISONS are balls like those of is/2
+	"catch(1 =:= 1 // 0, error(evaluation_error(E), _), w(E))", "catch(1 < 1 // 0, error(E, _), w(E))", "catch(2 > foo, error(type_error(T, V), _), w(T-V))",
+	"catch(1 =< 9223372036854775807 + 1, error(evaluation_error(E), _), w(E))", "catch(catch(1 >= 1 mod 0, error(type_error(_, _), _), w(inner)), error(evaluation_error(E), _), w(outer(E)))",
+	"catch(1 =\\= 1 / 0, error(E, _), w(E))", "catch((m(X), X > 3 - 3 // (X - 2)), error(evaluation_error(E), _), w(X-E))", "m(X), catch(X < 1 // (X - 1), error(evaluation_error(E), _), w(X-E))",
+	"1 =:= 1 // 0", "catch(_ < 1, error(E, _), w(E))",
+	// a ball error(Formal, Context) with an unbound Context is delivered as it is: the Catcher is unified with a copy of exactly it
+	"catch(catch(throw(error(my_error, _)), error(my_error, mine), w(inner)), _, w(outer))", "catch(throw(error(e, _)), error(e, C), (var(C) -> w(free) ; w(bound(C))))",
+	"catch(catch(throw(error(my_error, _)), error(my_error, throw/1), w(inner)), _, w(outer))", "catch(throw(error(e, C0)), error(e, C), true), w(C0-C)", "X = f(_), catch(throw(error(X, _)), error(f(a), ctx), w(X))",
+	"catch(catch(throw(error(e1, _)), error(e1, c1), throw(error(e2, _))), error(e2, c2), w(got))", "catch(h7, error(my_error, mine), w(inner))",
 }
 
 const c04Base = `
@@ -90,6 +99,7 @@ t(_, 0).
 h5(X) :- m(X), !, X > 0, !, throw(two_cuts(X)).
 h6(X) :- integer(X), !, X > 0, !, atom_length(X, foo).
 pc(G) :- catch(G, error(E, _), w(pc(E))).
+h7 :- m(X), X > 1, throw(error(my_error, _)).
 `
 
 type c04Gen struct {
@@ -162,7 +172,7 @@ func (g *c04Gen) w() string {
 	return fmt.Sprintf("w(e%d)", g.wctr)
 }
 
-var c04Errors = []string{"atom_length(1, _)", "atom_length(_, _)", "_ is foo + 1", "arg(x, f(a), _)", "call(1)", "undefined_pred_xyz", "functor(_, _, _)", "_ is 1 // 0"}
+var c04Errors = []string{"1 =:= 1 // 0", "2 > foo", "1 < 1 mod 0", "atom_length(1, _)", "atom_length(_, _)", "_ is foo + 1", "arg(x, f(a), _)", "call(1)", "undefined_pred_xyz", "functor(_, _, _)", "_ is 1 // 0"}
 
 func (g *c04Gen) recovery(depth int) string {
 	switch g.r.Intn(7) {
